@@ -538,7 +538,11 @@ pub fn run(part: &mut Part) {
             }];
             let dmg_profiles = vec![prof("cursor seeds x batch alphabet (damage)", { let mut s = vec![seed_ab()]; s.extend(cursor_seeds(&[0, 3], &[0, 7, 8, 34])); s }, profiles[0].alphabet.clone(), if TINY { if q { 1 } else { 2 } } else { 1 })];
             run_crash(part, profiles, cfgs);
-            let stats = explore(&dmg_profiles, part.seed, |env, leaf| crate::damage::c12_damage_leaf(env, leaf));
+            let stats = explore(&dmg_profiles, part.seed, |env, leaf| {
+                crate::damage::c12_damage_leaf(env, leaf);
+                // two damaged places: a checksum failure in an earlier entry + the fault on the batch
+                crate::damage::c12_damage_leaf_with(env, leaf, if q { 4 } else { usize::MAX });
+            });
             part.stats.merge(stats);
             // any in-place fault anywhere in images with batches (queue deleted / re-created before)
             let any_alpha = vec![
@@ -836,6 +840,7 @@ pub fn replay(path: &str) -> i32 {
             "C09" => crate::damage::c09_leaf(&mut env, &leaf),
             "C12" => {
                 crate::damage::c12_damage_leaf(&mut env, &leaf);
+                crate::damage::c12_damage_leaf_with(&mut env, &leaf, usize::MAX);
                 crate::damage::c12_anyfault_leaf(&mut env, &leaf);
             }
             _ => crate::damage::c10_inplace_leaf(&mut env, &leaf),
